@@ -58,7 +58,7 @@ NoView == [h |-> 0, r |-> 0, ver |-> 0, phs |-> {}, pv |-> EmptyFn, pc |-> Empty
 \* [RoundLifecycle.Reset]
 ResetRLC(s, h, r) == [s EXCEPT !.H = h, !.R = r, !.timer = "none",
                                !.propCh = TRUE, !.prevoteCh = TRUE, !.precommitCh = TRUE, !.finCh = TRUE,
-                               !.hc = "open", !.cwElapsed = FALSE, !.considered = {}, !.pcDue = FALSE]
+                               !.hc = "open", !.cwElapsed = FALSE, !.considered = {}, !.pcDue = FALSE, !.hidden = {}]
 
 ZeroRLC == [H |-> 0, R |-> 0, S |-> "none", timer |-> "none",
             propCh |-> FALSE, prevoteCh |-> FALSE, precommitCh |-> FALSE, finCh |-> FALSE,
@@ -67,7 +67,10 @@ ZeroRLC == [H |-> 0, R |-> 0, S |-> "none", timer |-> "none",
             cm |-> "idle", cmH |-> 0, cmR |-> 0, pcDue |-> FALSE,
             \* validator sets (ids): of the current height [CurValSet], the one headers of this height must name as next
             \* [PrevFinNextValSet], and what the driver returned for this height [FinalizedValSet] ("none" until then)
-            curVS |-> "G", nextVS |-> "G", finVS |-> "none"]
+            curVS |-> "G", nextVS |-> "G", finVS |-> "none",
+            \* proposed headers of the mirror's view that start-up filtered out of the stored copy [sendInitialActionSet];
+            \* the mirror's next update of the round carries them again
+            hidden |-> {}]
 
 -----------------------------------------------------------------------------
 Ctx0(s, st) == [s |-> s, st |-> st, o |-> <<>>, pan |-> "", stop |-> FALSE, needEntrance |-> FALSE, needAdvance |-> "none"]
@@ -232,7 +235,7 @@ ViewUpdate(x, upd) ==
                [] x.s.S \in {"CommitWait", "AwaitingFinalization"} -> CommitWaitViewUpdate(x, v)
                [] OTHER -> Panic(x, "TODO: handle view update for step")
        \* the new view is kept only if the round did not change
-       x2 == IF OKx(x1) /\ x1.s.H = v.h /\ x1.s.R = v.r /\ ~x1.needEntrance THEN [x1 EXCEPT !.s.vrv = v] ELSE x1
+       x2 == IF OKx(x1) /\ x1.s.H = v.h /\ x1.s.R = v.r /\ ~x1.needEntrance THEN [x1 EXCEPT !.s.vrv = v, !.s.hidden = {}] ELSE x1
    IN IF OKx(x2) /\ upd.jump.h # 0 /\ ~x2.needEntrance THEN JumpAhead(x2, upd.jump) ELSE x2
 
 -----------------------------------------------------------------------------
@@ -333,8 +336,9 @@ Boot(st, resp) ==
                   ELSE x0
             \* at start-up the view's proposed headers are filtered before use [sendInitialActionSet]
             v0 == [resp.v EXCEPT !.phs = OKPHs(@)]
+            hid == resp.v.phs \ OKPHs(resp.v.phs)
             v == IF mine THEN [v0 EXCEPT !.phs = @ \cup {st.actions[key]}] ELSE v0
-            x2 == Out([x1 EXCEPT !.s.actions = Participating],
+            x2 == Out([x1 EXCEPT !.s.actions = Participating, !.s.hidden = hid],
                       [t |-> "enterRound", h |-> pos[1], r |-> pos[2], propose |-> x1.s.propCh])
         IN BeginRoundLive(x2, v)
 
